@@ -27,6 +27,7 @@ VIOL_CAP = int(os.environ.get("VERIF_VIOL_CAP", "10"))
 
 def _init_worker():
     global _pest  # noqa: PLW0603
+    C.die_with_parent()
     _pest = C.import_pest()
 
 
